@@ -73,9 +73,12 @@ def ref_set(seed, count=8):
         # (inside the declared header size), optional header elements
         tail = r.randbytes(r.choice([1, 7, 300])) if i % 3 == 1 else b""
         opt = [(r.randrange(1, 9), r.randbytes(r.randrange(0, 40))) for _ in range(r.randrange(1, 3))] if i % 4 == 2 else None
+        sed_ = (i % 5 == 3)
+        if sed_:
+            comp, db = 2, b""
         data = zckref.make_file(pieces, comp_type=comp, dict_bytes=db, hash_type=r.choice([0, 1, 2, 3]), chunk_hash_type=cht,
-                                uncomp=uncomp, header_tail=tail, opt_elems=opt)
-        out.append({"name": "ref-%d%s%s" % (i, "-hdrtail%d" % len(tail) if tail else "", "-optelems" if opt else ""), "data": data, "content": b"".join(pieces),
+                                uncomp=uncomp, header_tail=tail, opt_elems=opt, stored_empty_dict=sed_)
+        out.append({"name": "ref-%d%s%s%s" % (i, "-hdrtail%d" % len(tail) if tail else "", "-optelems" if opt else "", "-emptydictframe" if sed_ else ""), "data": data, "content": b"".join(pieces),
                     "pieces": [len(p) for p in pieces], "dict": db, "cfg": {"comp": comp, "uncomp": uncomp}})
     return out
 
